@@ -495,7 +495,7 @@ def stream_exhaustive(R, ncolors):
     n_exh = len(cases)
     # one length more, sampled
     extra = [list(seq) for seq in itertools.product(al, repeat=kmax + 1) if valid_for(nd, seq)]
-    n_extra = R.pick(5000, 40000)
+    n_extra = R.pick(5000, 28000)
     if len(extra) > n_extra:
         extra = R.subrng('exh-extra').sample(extra, n_extra)
     cases += extra
@@ -670,6 +670,166 @@ def stream_restore(R):
                    'operations (new group, append new, remove / re-append a restored dataset, remove group) with the invariant after each; oracle only')
 
 
+# ------------------------------------------------------------------ histories through the command stack (oracle only)
+def run_session_case(case):
+    """drive a real Session/CommandStack (harness.c13's runner) and evaluate the C06 oracle after every step;
+    returns (index of the first failing step or None, violations)"""
+    from harness import c13
+    im = c13.Impl13(case)
+    bad = im.im.oracle()
+    if bad:
+        return -1, bad
+    for i, o in enumerate(case['ops']):
+        try:
+            if o[0] == 'do':
+                im.stack.do(im.make(o[1]))
+            elif o[0] == 'undo':
+                im.stack.undo()
+            else:
+                im.stack.redo()
+        except IndexError:
+            pass
+        except Exception as exc:       # C13 reports commands that cannot run; here only the collection afterwards matters
+            pass
+        im.register_new_groups()
+        bad = im.im.oracle()
+        if bad:
+            return i, bad
+    return None, []
+
+
+def session_walks(al, kmax):
+    """all sequences of length <= kmax over commands + undo/redo in which no undo/redo is refused"""
+    out = []
+
+    def go(c, u, acc):
+        if acc:
+            out.append(list(acc))
+        if len(acc) == kmax:
+            return
+        for cmd in al:
+            go(c + 1, 0, acc + [('do', cmd)])
+        if c > 0:
+            go(c - 1, u + 1, acc + [('undo',)])
+        if u > 0:
+            go(c + 1, u - 1, acc + [('redo',)])
+    go(0, 0, [])
+    return out
+
+
+SESSION_CONFIGS = [
+    {'pool': 2, 'mode': 'and', 'pre': [('append', 0), ('append', 1), ('newgroup', ('leaf', 6))], 'edit': [0]},   # a group exists and is edited
+    {'pool': 2, 'mode': 'replace', 'pre': [('append', 0)], 'edit': []},                                          # the first selection creates the group
+]
+
+
+def stream_session(R):
+    from harness import c13
+    al = [('add', 1), ('rem', 0), ('rem', 1), ('apply', ('leaf', 5), None, False), ('apply', ('leaf', 12), 'new', True)]
+    kmax = R.pick(4, 5)
+    walks = [w for w in session_walks(al, kmax)]
+    # only maximal walks need to be run (every step is checked), plus the ones that cannot be extended
+    walks = [w for w in walks if len(w) == kmax]
+    cases = [dict(cfg, ops=w) for cfg in SESSION_CONFIGS for w in walks]
+    n_exh = len(cases)
+    nr = R.pick(250, 1500)
+    for i in range(nr):
+        rng = R.subrng('session', i)
+        cases.append(c13.rand_case(rng, ladder=(i % 2 == 0)))
+    nbad = 0
+    for c in cases:
+        R.count(('session', c13.case_key(c)), nontrivial=True, stream='session', length=len(c['ops']))
+        step, bad = run_session_case(c)
+        if bad:
+            nbad += 1
+            if nbad > 5:
+                continue
+            small = c13.shrink_case(dict(c, ops=c['ops'][:step + 1]), lambda x: run_session_case(x)[1] != [])
+            st2, bad2 = run_session_case(small)
+            R.fail('oracle', dict(small, stream='session'), {'step': st2, 'violations': bad2[:6], 'original_length': len(c['ops'])}, key=None)
+    R.sample({'session': cases[len(cases) // 3]})
+    R.stream('session', cases=n_exh, random=nr, exhaustive=True,
+             bound='real Session/CommandStack: every sequence of exactly %d steps over {AddData d1, RemoveData d0/d1, a selection without override, ApplyROI with new, undo, redo} '
+                   'in which no undo/redo is refused, from 2 start configurations (two datasets and an edited group; one dataset and no group), plus %d random / ladder-shaped '
+                   'C13 cases; the C06 invariant on the real objects after every step (oracle only: the correspondence of such histories is C13\'s)' % (kmax, nr))
+
+
+# ------------------------------------------------------------------ operations inside hub.delay_callbacks() (oracle only)
+import re as _re
+_DUP = _re.compile(r'^(?:d(\d+) has 2 subsets of g(\d+)|g(\d+) lists 2 subsets of d(\d+)) \(expected exactly 1\)$')
+
+
+def run_delay_case(pool, pre, block):
+    im = Impl(pool)
+    for o in pre:
+        im.apply(o)
+    with im.dc.hub.delay_callbacks():
+        for o in block:
+            im.apply(o)
+    return im.oracle()
+
+
+def late_add_class(pool, pre, block, bad):
+    """True when every violation is a duplicate subset of a (dataset, group) pair where the dataset was appended inside the
+    block before the group was created inside the same block (the queued DataCollectionAddMessage reaches the new group late)"""
+    ng = sum(1 for o in pre if o[0] == 'newgroup')
+    nd = pool + sum(1 for o in pre if o[0] == 'merge' and len(o[1]) >= 2)
+    appended = set()
+    pairs = set()
+    for o in block:
+        if o[0] == 'append' and o[1] >= 0:
+            appended.add(o[1])
+        elif o[0] == 'merge' and len(o[1]) >= 2:
+            appended.add(nd)
+            nd += 1
+        elif o[0] == 'newgroup':
+            pairs |= set((d, ng) for d in appended)
+            ng += 1
+    for v in bad:
+        m = _DUP.match(v)
+        if not m:
+            return False
+        d, g = (int(m.group(1)), int(m.group(2))) if m.group(1) is not None else (int(m.group(4)), int(m.group(3)))
+        if (d, g) not in pairs:
+            return False
+    return bool(bad)
+
+
+def stream_delay(R):
+    al = [('append', 0), ('append', 1), ('remove', 0), ('newgroup', None), ('rmgroup', 0), ('clear',), ('merge', [0, 1])]
+    pres = [[], [('append', 0), ('newgroup', None)]]
+    cases = []
+    for pre in pres:
+        for k in (1, 2, 3):
+            for blk in itertools.product(al, repeat=k):
+                if valid_for(2, pre + list(blk)):
+                    cases.append((2, pre, list(blk)))
+    n_exh = len(cases)
+    nr = R.pick(150, 2000)
+    for i in range(nr):
+        rng = R.subrng('delay', i)
+        pool = rng.choice([2, 3])
+        ops = gen_random_ops(rng, pool, rng.choice([4, 8, 12]))
+        cut = rng.randrange(len(ops))
+        cases.append((pool, ops[:cut], ops[cut:cut + rng.choice([2, 3, 5])]))
+    known = 0
+    for pool, pre, blk in cases:
+        R.count(('delay', ops_key(pool, pre), ops_key(pool, blk)), nontrivial=nontrivial(pre + blk), stream='delay', length=len(blk))
+        bad = run_delay_case(pool, pre, blk)
+        if bad:
+            if late_add_class(pool, pre, blk, bad):
+                known += 1
+                if known <= 1:
+                    small = shrink(pool, blk, lambda c: valid_for(pool, pre + c) and late_add_class(pool, pre, c, run_delay_case(pool, pre, c)))
+                    R.fail('oracle', {'stream': 'delay', 'pool': pool, 'pre': pre, 'block': small},
+                           {'violations': run_delay_case(pool, pre, small)[:4]}, key='delay-block-late-add')
+            else:
+                R.fail('oracle', {'stream': 'delay', 'pool': pool, 'pre': pre, 'block': blk}, {'violations': bad[:6]}, key=None)
+    R.stream('delay', cases=n_exh, random=nr, exhaustive=True,
+             bound='a block of 1..3 operations over 7 letters (random: 2..5 operations after a random history) executed inside `with dc.hub.delay_callbacks()`; '
+                   'the invariant when the block is left (oracle only; delivery order inside the hub is C07\'s model)')
+
+
 def stream_malformed(R, ncolors):
     cases = [
         (2, [('merge', [])]), (2, [('merge', [0])]), (2, [('append', 0), ('newgroup', None), ('merge', [0])]),
@@ -692,6 +852,8 @@ def run(R):
     stream_malformed(R, ncolors)
     stream_random(R, ncolors)
     stream_restore(R)
+    stream_session(R)
+    stream_delay(R)
     stream_exhaustive(R, ncolors)
     R.exhaustive = True
 
@@ -700,7 +862,18 @@ def replay(R, case):
     from glue.config import settings
     ncolors = len(settings.SUBSET_COLORS)
     pool = case['pool']
-    ops = [tuple(_untuple(x) for x in o) for o in case['ops']]
+    ops = [tuple(_untuple(x) for x in o) for o in case.get('ops', [])]
+    if case.get('stream') == 'session':
+        from harness import c13
+        c = {'pool': case['pool'], 'mode': case['mode'], 'edit': list(case['edit']),
+             'pre': [c13.c06_op(o) for o in case['pre']], 'ops': [c13.sop(o) for o in case['ops']]}
+        step, bad = run_session_case(c)
+        return {'case': case, 'first_failing_step': step, 'oracle': bad, 'violates': bool(bad)}
+    if case.get('stream') == 'delay':
+        pre = [tuple(_untuple(x) for x in o) for o in case['pre']]
+        blk = [tuple(_untuple(x) for x in o) for o in case['block']]
+        bad = run_delay_case(pool_of(case), pre, blk)
+        return {'case': case, 'oracle': bad, 'violates': bool(bad), 'known_class': late_add_class(pool_of(case), pre, blk, bad)}
     if case.get('stream') == 'restore':
         res, im = run_impl(pool, ops, every_step=False)
         im2 = restored_impl(im)
@@ -726,6 +899,10 @@ def replay(R, case):
                                   for (snap, _), m in zip(res, ms))
     out['violates'] = viol
     return out
+
+
+def pool_of(case):
+    return case['pool']
 
 
 def _untuple(x):
